@@ -99,15 +99,39 @@ func waitIdle(f *fakes.TrackerFixture) bool {
 	return false
 }
 
-const rule = "direct construction on one real stateless tracker: per CID (5 + 1 extra) a pinset entry (absent, local, everywhere, remote, meta; recursive or direct), a daemon entry (absent, recursive, direct, indirect) and an optional last operation produced by really running one track/untrack against a daemon scripted to fail or succeed for that CID; then every status filter drawn from {undefined, each single status, the two composites, random unions}; oracle: Status(c) and the listing entry agree at class level, both agree with the facts, and a filtered listing equals the unfiltered listing restricted to the filter; non-trivial = at least one direct pin or failed last operation, and a filter other than 'undefined'; distinct by canonical rendering"
+const rule = "direct construction on one real stateless tracker: per CID (5 + 1 extra) a pinset entry (absent, local, everywhere, remote, meta; recursive or direct), a daemon entry (absent, recursive, direct, indirect) and an optional last operation produced by really running one track/untrack against a daemon scripted to fail or succeed for that CID, or (one case in three) a pin refused because the one-slot operation queue was full; then every status filter drawn from {undefined, each single status, the two composites, random unions}; oracle: Status(c) and the listing entry agree at class level, both agree with the facts, and a filtered listing equals the unfiltered listing restricted to the filter; non-trivial = at least one direct pin or failed last operation, and a filter other than 'undefined'; distinct by canonical rendering"
 
 func TestLocalViews(t *testing.T) {
 	leg := ev.L("local-views", rule)
 	ctx := context.Background()
 	cids := gen.Cids[:6]
 	rapid.Check(t, func(t *rapid.T) {
+		// one case in three runs on a tracker with a queue of one slot and one
+		// worker, kept busy by two filler pins while the items' operations
+		// arrive: those meant to hit the full queue are refused with
+		// ErrFullQueue, which is a failed last operation
+		saturate := rapid.IntRange(0, 2).Draw(t, "saturate") == 0
 		f := fakes.NewTracker(self, 100, 2)
+		if saturate {
+			f = fakes.NewTracker(self, 1, 1)
+		}
 		defer f.Close()
+		var fullQueue []cid.Cid
+		if saturate {
+			f.D.Gate = true
+			for _, fc := range []cid.Cid{gen.Cids[10], gen.Cids[11]} {
+				p := mkPin(fc, "local", api.PinModeRecursive)
+				f.St.Add(ctx, p)
+				if err := f.T.Track(ctx, p); err != nil {
+					t.Fatalf("harness: filler pin refused: %v", err)
+				}
+				// the first filler must be picked up by the worker before the
+				// second can take the queue slot
+				for w := 0; len(f.D.ParkedCalls()) == 0 && w < 20000; w++ {
+					time.Sleep(100 * time.Microsecond)
+				}
+			}
+		}
 		items := map[string]*item{}
 		failPin, failUnpin := map[string]bool{}, map[string]bool{}
 		f.D.FailFor = func(kind string, c cid.Cid) bool {
@@ -126,6 +150,20 @@ func TestLocalViews(t *testing.T) {
 			}
 			op := rapid.SampledFrom([]string{"", "", "", "fail", "ok"}).Draw(t, "op")
 			k := c.String()
+			if saturate {
+				// while the queue is saturated the only operation that can be
+				// run to completion is one that is refused
+				op = ""
+				if (it.loc == "local" || it.loc == "everywhere") && rapid.Bool().Draw(t, "full") {
+					p := mkPin(c, it.loc, it.mode)
+					f.St.Add(ctx, p)
+					if err := f.T.Track(ctx, p); err == nil {
+						t.Fatalf("harness: the queue was expected to be full for %s", c)
+					}
+					it.lastOp = "pin-failed"
+					fullQueue = append(fullQueue, c)
+				}
+			}
 			// last operation: really run it
 			switch {
 			case op == "" || it.loc == "meta":
@@ -153,7 +191,17 @@ func TestLocalViews(t *testing.T) {
 			items[k] = it
 			_ = i
 		}
+		if saturate {
+			f.D.ReleaseAll("ok", true)
+		}
 		if !waitIdle(f) {
+			if len(fullQueue) > 0 {
+				var still []string
+				for _, pi := range f.T.StatusAll(ctx, pending) {
+					still = append(still, fmt.Sprintf("%s=%s", pi.Cid, pi.Status))
+				}
+				t.Fatalf("operations are still reported as pending after everything was released; %d pins had been refused with a full queue: %v", len(fullQueue), still)
+			}
 			t.Fatalf("tracker did not become idle")
 		}
 		// now set the facts: pinset and daemon table
@@ -253,6 +301,10 @@ func TestLocalViews(t *testing.T) {
 				t.Fatalf("StatusAll(filter %q) = %v, but the unfiltered listing restricted to the filter is %v\nitems: %v", flt.String(), got, want, desc)
 			}
 		}
-		leg.Case(strings.Join(desc, " "), special && nontrivialFilter)
+		cls := []string{}
+		if len(fullQueue) > 0 {
+			cls = append(cls, "full-queue")
+		}
+		leg.Case(strings.Join(desc, " "), special && nontrivialFilter, cls...)
 	})
 }
